@@ -426,9 +426,9 @@ func (c *Call) updateLocations(goroot, localgoroot string, localgomods, gopaths 
 			return true
 		}
 	}
-	// Check GOPATH.
-	// TODO(maruel): Sort for deterministic behavior?
-	for prefix, dest := range gopaths {
+	// Check GOPATH. The most specific root wins when roots overlap.
+	for _, prefix := range longestFirst(gopaths) {
+		dest := gopaths[prefix]
 		if p := prefix + "/src/"; strings.HasPrefix(c.RemoteSrcPath, p) {
 			c.RelSrcPath = c.RemoteSrcPath[len(p):]
 			c.LocalSrcPath = pathJoin(dest, "src", c.RelSrcPath)
@@ -456,7 +456,8 @@ func (c *Call) updateLocations(goroot, localgoroot string, localgomods, gopaths 
 	// Check Go modules.
 	// Go module path detection only works with stack traces created on the local
 	// file system.
-	for prefix, pkg := range localgomods {
+	for _, prefix := range longestFirst(localgomods) {
+		pkg := localgomods[prefix]
 		if strings.HasPrefix(c.RemoteSrcPath, prefix+"/") {
 			c.RelSrcPath = c.RemoteSrcPath[len(prefix)+1:]
 			c.LocalSrcPath = c.RemoteSrcPath
@@ -857,6 +858,24 @@ func nameArguments(goroutines []*Goroutine) {
 		}
 		nextID++
 	}
+}
+
+// longestFirst returns the keys of m ordered from the longest to the shortest
+// so that prefix matching is deterministic and picks the most specific root.
+func longestFirst(m map[string]string) []string {
+	keys := make([]string, 0, len(m))
+	for k := range m {
+		keys = append(keys, k)
+	}
+	if len(keys) > 1 {
+		sort.Slice(keys, func(i, j int) bool {
+			if len(keys[i]) != len(keys[j]) {
+				return len(keys[i]) > len(keys[j])
+			}
+			return keys[i] < keys[j]
+		})
+	}
+	return keys
 }
 
 func pathJoin(s ...string) string {
